@@ -15,6 +15,8 @@ if args and args[0] == "--round6":
     root, tag, args = "/tmp/seed6", "r6", args[1:]
 if args and args[0] == "--round8":
     root, tag, args = "/tmp/seed8", "r8", args[1:]
+if args and args[0] == "--round9":
+    root, tag, args = "/tmp/seed9", "r9", args[1:]
 if args and args[0] == "--round7":
     root, tag, args = "/tmp/seed7", "r7", args[1:]
 for pid in args:
